@@ -59,7 +59,7 @@ ASSUMPTIONS = [
 
 NAMES = ["a", "b", "A"]
 ATTRS = [[], ["x"], [1], ["x", "Y"], [1, "x"]]
-VALUES = ["a", "b", "A", "x", "Y", 1]
+VALUES = ["a", "b", "A", "x", "Y", 1, "ab", "", 0]      # names and attributes, str and int, falsy ones too
 
 BOUNDS = {
     "quick": {"max_nodes": 4, "three_level_nodes": 5, "max_depth": 3, "levels": 3, "predicate_depth": 2,
@@ -97,6 +97,37 @@ def depth2_binary_rows(at):
     s1 = at + depth1(at)
     n0 = len(at)
     return s1, n0
+
+
+def nary(at):
+    """All(a, b, c) / Any(a, b, c) built directly with three operands (the compiled form joins them)."""
+    return [[op, x, y, z] for op in ("and", "or") for x in at for y in at for z in at]
+
+
+MIXED_Q = [P("eq", "A"), P("ieq", "a")]
+MIXED_T = [P("eq", "A"), P("ieq", "a"), P("startswith", "Y")]
+
+
+def depth3_spine(tier):
+    """Depth-3 combinations of case-sensitive and case-insensitive leaves: every exact-depth-2 expression over
+    the mixed atoms, negated, and combined with one more atom on either side."""
+    at = MIXED_Q if tier == "quick" else MIXED_T
+    s1 = at + depth1(at)
+    n0 = len(at)
+    d2 = depth2_unary(at)
+    for i, x in enumerate(s1):
+        for j, y in enumerate(s1):
+            if i < n0 and j < n0:
+                continue
+            d2.append(["and", x, y])
+            d2.append(["or", x, y])
+    out = [["not", x] for x in d2]
+    for x in d2:
+        for a in at:
+            for op in ("and", "or"):
+                out.append([op, x, a])
+                out.append([op, a, x])
+    return out
 
 
 def all_depth2(at):
@@ -141,7 +172,7 @@ def tree_bools(tier):
 
 
 AQ_MED = [["lit", "x"], ["lit", 1], ["bool", P("ieq", "y")], ["bool", P("lt", 2)],
-          ["bool", ["not", P("ieq", "A")]], ["fn", "raise"]]
+          ["bool", ["not", P("ieq", "A")]], ["fn", "raise"], ["fn", "str_x"], ["fn", "lt2"]]
 AQ_MED_T = AQ_MED + [["lit", "Y"], ["bool", ["not", P("startswith", "x")]], ["bool", P("isin", ["b", "x", 1])],
                      ["fn", "self"]]
 
@@ -158,9 +189,11 @@ def entry_queries(tier):
 def lq_big(tier):
     """UA: every one-level query form over the large predicate set."""
     bools = tree_bools(tier)
-    nq_all = [nq_lit("a"), nq_lit("b"), nq_lit("A"), NONE, ["fn", "raise"], ["fn", "eq_a"], ["fn", "self"]] \
+    nq_all = [nq_lit("a"), nq_lit("b"), nq_lit("A"), NONE, ["fn", "raise"], ["fn", "eq_a"], ["fn", "self"],
+              ["fn", "str_x"], ["fn", "lt2"]] \
         + [["bool", b] for b in bools]
-    aq_all = [["lit", "x"], ["lit", 1], ["lit", "Y"], ["fn", "raise"], ["fn", "self"]] + [["bool", b] for b in bools]
+    aq_all = [["lit", "x"], ["lit", 1], ["lit", "Y"], ["fn", "raise"], ["fn", "self"], ["fn", "str_x"], ["fn", "lt2"]] \
+        + [["bool", b] for b in bools]
     nq_small = [nq_lit("a"), NONE, ["bool", ["not", P("eq", "b")]]]
     out = [["name", nq] for nq in nq_all]
     out += [["tuple", nq, aq] for nq in nq_small for aq in aq_all]
@@ -184,7 +217,8 @@ def lq_med(tier):
            ["tuple", NONE, ["bool", ["not", P("ieq", "A")]]],
            ["entry", ["all", ["bool", P("isin", ["b", "x", 1])]]],
            ["tuple", NONE, ["entry", ["not", ["any", ["lit", 1]]]]],
-           ["tuple", NONE, ["fn", "raise"], ["bool", P("matches", "[aY]")]]]
+           ["tuple", NONE, ["fn", "raise"], ["bool", P("matches", "[aY]")]],
+           ["tuple", NONE, ["fn", "str_x"]]]
     if tier == "thorough":
         out += [["name", nq_lit("A")],
                 ["name", ["bool", ["or", P("startswith", "a"), P("lt", 2)]]],
@@ -204,6 +238,8 @@ def lq_med(tier):
                 ["tuple", nq_lit("a"), ["entry", ["all", ["lit", "x"]]]],
                 ["tuple", NONE, ["fn", "self"]],
                 ["entry", ["not", ["all", ["fn", "raise"]]]],
+                ["entry", ["not", ["any", ["fn", "lt2"]]]],
+                ["tuple", nq_lit("b"), ["fn", "lt2"], ["lit", "Y"]],
                 ["tuple", ["fn", "self"], ["lit", 1], ["lit", "x"]]]
     return out
 
@@ -222,6 +258,29 @@ LQ_5 = [["name", nq_lit("a")], ["name", NONE], ["tuple", NONE, ["lit", "x"]], ["
         ["tuple", nq_lit("b"), ["bool", P("lt", 2)]]]
 
 
+def lq_falsy(tier):
+    """UF: falsy / boundary names and attribute values ("" as a name, 0, "" and None as attributes, a prefix
+    variant of a name, three attributes of mixed types, a matching attribute before a raising one)."""
+    nqs = [nq_lit(""), nq_lit("ab"), nq_lit("a"), NONE, ["bool", P("eq", "")], ["bool", ["not", P("eq", "")]],
+           ["bool", P("startswith", "a")], ["bool", P("ieq", "AB")], ["bool", P("matches", "b$")],
+           ["fn", "self"], ["fn", "str_x"], ["fn", "lt2"]]
+    aqs = [["lit", 0], ["lit", ""], ["lit", "x"], ["lit", 1], ["bool", P("eq", 0)], ["bool", P("eq", "")],
+           ["bool", ["not", P("eq", 0)]], ["bool", P("lt", 1)], ["bool", P("isin", [0, ""])], ["bool", P("ieq", "")],
+           ["bool", ["not", P("ieq", "x")]], ["fn", "self"], ["fn", "str_x"], ["fn", "lt2"], ["fn", "raise"]]
+    sub = [["lit", 0], ["lit", ""], ["fn", "str_x"], ["fn", "lt2"], ["bool", P("lt", 1)], ["fn", "self"]]
+    out = [["name", nq] for nq in nqs]
+    out += [["tuple", nq, aq] for nq in (NONE, nq_lit("")) for aq in aqs]
+    out += [["tuple", NONE, a1, a2] for a1 in sub for a2 in sub]
+    base = [[k, aq] for k in ("any", "all") for aq in sub + [["bool", ["not", P("eq", 0)]], ["bool", P("eq", "")]]]
+    out += [["entry", e] for e in base] + [["entry", ["not", e]] for e in base]
+    return out
+
+
+LQ_F2 = [["name", nq_lit("")], ["name", NONE], ["name", nq_lit("ab")], ["tuple", NONE, ["lit", 0]],
+         ["tuple", NONE, ["lit", ""]], ["tuple", nq_lit(""), ["fn", "str_x"]], ["name", ["fn", "self"]],
+         ["entry", ["not", ["any", ["fn", "lt2"]]]]]
+
+
 def lq_names(tier):
     ns = ["a", "b"] if tier == "quick" else ["a", "b", "A"]
     return [["name", nq_lit(n)] for n in ns] + [["name", NONE]]
@@ -234,6 +293,8 @@ def labels(kind):
         return [[n, a] for n in ("a", "b") for a in ([], ["x"], [1])]
     if kind == "four":
         return [["a", []], ["a", ["x"]], ["b", []], ["b", [1]]]
+    if kind == "falsy":
+        return [[n, a] for n in ("", "ab") for a in ([], [0], [""], [None], ["x", 1], [0, "x", "Y"])]
     if kind == "names2":
         return [["a", []], ["b", []]]
     if kind == "names3":
@@ -270,6 +331,7 @@ UNIVERSES = {
     # name: (lo, hi, label kind per tier, level-set function, level counts, multi-document options)
     "UA": {"nodes": (1, 2), "labels": "full", "lq": lq_big, "nlev": (1,), "multi": ()},
     "UA3": {"nodes": (3, 3), "labels": "full", "lq": lambda tier: lq_big("quick"), "nlev": (1,), "multi": ()},
+    "UF": {"nodes": (0, 2), "labels": "falsy", "lq": lq_falsy, "nlev": (1,), "lq2": LQ_F2, "multi": ((False, True), (True, True))},
     "U1": {"nodes": (1, 3), "labels": "red", "lq": lq_med, "nlev": (1, 2), "multi": ((False, True), (True, True))},
     "U2": {"nodes": (4, 4), "labels": "red", "lq": lq_red, "nlev": (1, 2), "multi": ((False, True), (True, True))},
     "U2B": {"nodes": (5, 5), "labels": "four", "lq": lambda tier: LQ_5, "nlev": (1, 2), "multi": ((False, True), (True, True))},
@@ -289,6 +351,8 @@ def universe_queries(name, tier):
     out = []
     for n in u["nlev"]:
         out += [list(t) for t in itertools.product(lqs, repeat=n)]
+    if "lq2" in u:
+        out += [list(t) for t in itertools.product(u["lq2"], repeat=2)]
     return out
 
 
@@ -324,10 +388,11 @@ def mk_bool(b):
         return getattr(Q, b[1])(b[2])
     if k == "not":
         return ~mk_bool(b[1])
-    if k == "and":
-        return mk_bool(b[1]) & mk_bool(b[2])
-    if k == "or":
-        return mk_bool(b[1]) | mk_bool(b[2])
+    if k in ("and", "or"):
+        if len(b) == 3:
+            return (mk_bool(b[1]) & mk_bool(b[2])) if k == "and" else (mk_bool(b[1]) | mk_bool(b[2]))
+        from insights.parsr.query.boolean import All, Any
+        return (All if k == "and" else Any)(*[mk_bool(x) for x in b[1:]])
     raise ValueError(b)
 
 
@@ -467,7 +532,8 @@ def to_nginx(forest, indent=""):
 
 class Ctx(object):
     """One built forest: the real objects, the structure read back from them, identity map."""
-    __slots__ = ("build", "X", "doc", "has_container", "objs", "idmap", "tree", "start_objs", "start", "lab", "forest")
+    __slots__ = ("build", "X", "doc", "has_container", "objs", "idmap", "tree", "start_objs", "start", "lab", "forest",
+                 "snapshot")
 
 
 def build_ctx(forest, build):
@@ -514,7 +580,7 @@ def build_ctx(forest, build):
 
     def walk(o, into):
         c.objs.append(o)
-        node = [o._name, list(o.attrs), []]
+        node = [o.name, list(o.attrs), []]          # public accessors only
         into.append(node)
         for k in o.children:
             walk(k, node[2])
@@ -529,7 +595,21 @@ def build_ctx(forest, build):
         c.start = [k for t in c.tree.tops for k in c.tree.kids[t]]
     c.start_objs = [c.objs[i] for i in c.start]
     c.lab = None
+    c.snapshot = structure(c)
     return c
+
+
+def structure(c):
+    """What a query must leave alone: names, attributes, child lists and parent links of every node
+    (identities as positions), plus the child list of the container / Result."""
+    idmap = c.idmap
+    top = c.doc if c.has_container else c.X
+    out = [[idmap.get(id(k), "?") for k in top.children]]
+    for o in c.objs:
+        par = o.parent
+        out.append((o.name, tuple(o.attrs), [idmap.get(id(k), "?") for k in o.children],
+                    None if par is None else idmap.get(id(par), "?")))
+    return out
 
 
 def ids_of(ctx, result):
@@ -540,6 +620,7 @@ def ids_of(ctx, result):
 # ---- the checker (exploration and replay both end here) -----------------------------------------------
 
 CLAUSE_Q = "query:result-matches-model"
+CLAUSE_T = "query:tree-unchanged"
 
 
 def _sat(ctx, levels, defect):
@@ -547,62 +628,94 @@ def _sat(ctx, levels, defect):
     return lambda lv, n: M.level_match(levels[lv], t.name[n], t.attrs[n], defect)
 
 
-def model_select(ctx, start, levels, deep, roots, defect=False):
+def model_select(ctx, start, levels, deep, roots, defect=False, order="doc"):
+    """Expected identities.  order="doc" is what the statement demands (document order); order="path" is the
+    order of a level-by-level walk, used only to recognise the known deep multi-level family."""
     sat = _sat(ctx, levels, defect)
-    exp, trace = M.select_levelwise(ctx.tree, start, sat, len(levels), deep, roots, ctx.has_container)
-    exp2 = M.select_pathwise(ctx.tree, start, sat, len(levels), deep, roots, ctx.has_container)
-    if exp != exp2:
-        raise RuntimeError("reference formulations disagree: %r vs %r on %s" % (exp, exp2, canon_json([ctx.forest, levels, deep, roots])))
-    return exp, trace
+    path, trace = M.select_levelwise(ctx.tree, start, sat, len(levels), deep)
+    doc2, path2 = M.select_pathwise(ctx.tree, start, sat, len(levels), deep)
+    if path != path2 or M.doc_order(path) != doc2:
+        raise RuntimeError("reference formulations disagree: %r vs %r / %r on %s"
+                           % (path, path2, doc2, canon_json([ctx.forest, levels, deep])))
+    res = doc2 if order == "doc" else path
+    return M.finish(ctx.tree, res, roots, ctx.has_container), trace
 
 
-def expected_for(ctx, case, defect=False):
+def expected_for(ctx, case, defect=False, order="doc"):
     """Expected identity list for one case (any entry point)."""
     ep = case["ep"]
     levels = case.get("levels") or []
     deep, roots = bool(case.get("deep")), bool(case.get("roots"))
     t = ctx.tree
-    if ep in ("select", "compiled", "find", "getitem"):
-        return model_select(ctx, ctx.start, levels, deep, roots, defect)[0]
+    if ep in ("select", "compiled", "find", "find_all", "getitem"):
+        return model_select(ctx, ctx.start, levels, deep, roots, defect, order)[0]
     pre = case["pre"]
     r1 = model_select(ctx, ctx.start, pre, False, False, defect)[0]
     if ep in ("chain", "chain_getitem"):
         start2 = [k for n in r1 for k in t.kids[n]]
-        return model_select(ctx, start2, levels, deep, roots, defect)[0]
+        return model_select(ctx, start2, levels, deep, roots, defect, order)[0]
     if ep == "where":
         return [n for n in r1 if M.where_match(case["wq"], t, n, defect)]
     raise ValueError(ep)
 
 
-def observed_for(ctx, case):
+def _call(ctx, step, state, share):
+    """One public call.  `state` keeps the Result of the chained first step so that the steps of a history
+    run on ONE Result object; `share` (or None) memoises query objects by descriptor so that the identical
+    python objects are reused by later steps."""
     Q = _q()
-    ep = case["ep"]
-    levels = case.get("levels") or []
-    deep, roots = bool(case.get("deep")), bool(case.get("roots"))
+
+    def lq(l):
+        if share is None:
+            return mk_lq(l)
+        k = canon_json(l)
+        if k not in share:
+            share[k] = mk_lq(l)
+        return share[k]
+    ep = step["ep"]
+    levels = step.get("levels") or []
+    deep, roots = bool(step.get("deep")), bool(step.get("roots"))
     X = ctx.X
-    qs = [mk_lq(l) for l in levels]
+    qs = [lq(l) for l in levels]
     if ep == "compiled":
         return Q.select(Q.compile_queries(*qs), ctx.start_objs, deep=deep, roots=roots)
     if ep == "select":
         return X.select(*qs, deep=deep, roots=roots)
     if ep == "find":
         return X.find(*qs, roots=roots)
+    if ep == "find_all":
+        return X.find_all(*qs, roots=roots)
     if ep == "getitem":
         return X[qs[0]]
-    r1 = X.select(*[mk_lq(l) for l in case["pre"]])
+    key = canon_json(step["pre"])
+    if key not in state:
+        state[key] = X.select(*[lq(l) for l in step["pre"]])
+    r1 = state[key]
     if ep == "chain":
         return r1.select(*qs, deep=deep, roots=roots)
     if ep == "chain_getitem":
         return r1[qs[0]]
     if ep == "where":
-        wq = case["wq"]
-        if case.get("where_style") == "args":
-            lq = wq[1]
-            if lq[0] == "name":
-                return r1.where(mk_nq(lq[1]))
-            return r1.where(mk_nq(lq[1]), mk_aq(lq[2]))
+        wq = step["wq"]
+        if step.get("where_style") == "args":
+            l = wq[1]
+            if l[0] == "name":
+                return r1.where(mk_nq(l[1]))
+            return r1.where(mk_nq(l[1]), mk_aq(l[2]))
         return r1.where(mk_wq(wq))
     raise ValueError(ep)
+
+
+def observed_for(ctx, case):
+    """Runs the steps of case["before"] (results discarded) and then the judged call, all on the same objects."""
+    state = {}
+    share = {} if case.get("share") else None
+    for step in case.get("before") or []:
+        try:
+            _call(ctx, step, state, share)
+        except Exception:
+            pass
+    return _call(ctx, case, state, share)
 
 
 def case_bools(case):
@@ -614,9 +727,16 @@ def case_bools(case):
     return out
 
 
-def defect_features(ctx, case, exp, exp_defect, got):
-    """Narrow attribution to the known defect: the query applies a case-insensitive predicate to a
-    non-string attribute AND the observed result is exactly what `value.lower()` raising would give."""
+def features(ctx, case, exp, got):
+    """Narrow attribution to the known families; every flag also requires that the observed list is EXACTLY what
+    the family predicts, so any other deviation keeps all flags False and stays a VIOLATION.
+
+    deep_multilevel_match_path_order   deep search with >= 2 levels; the right node set, returned in the order of a
+                                       level-by-level walk (children of the first level-1 match first) where that
+                                       differs from document order
+    caseless_predicate_on_nonstring    (fixed in 83c0148, kept so that a regression is recognised) a case-insensitive
+                                       predicate met a non-string attribute and the result is what value.lower()
+                                       raising inside the compiled form would give"""
     nonstr = [a for attrs in ctx.tree.attrs for a in attrs if not isinstance(a, str)]
     hit = False
     neg = False
@@ -627,22 +747,37 @@ def defect_features(ctx, case, exp, exp_defect, got):
             h, n = M.caseless_on_nonstring(b, v)
             hit = hit or h
             neg = neg or (h and n)
-    explained = hit and got == exp_defect and exp != exp_defect
+    explained = False
+    if hit:
+        exp_defect = expected_for(ctx, case, defect=True)
+        explained = got == exp_defect and exp != exp_defect
+    path_order = False
+    if case.get("deep") and len(case.get("levels") or []) >= 2 and case["ep"] != "where":
+        exp_path = expected_for(ctx, case, order="path")
+        path_order = got == exp_path and exp_path != exp
     return {"caseless_predicate_on_nonstring": bool(explained), "under_not": bool(explained and neg),
-            "entry_point": case["ep"]}
+            "deep_multilevel_match_path_order": bool(path_order), "entry_point": case["ep"]}
 
 
 def eval_case(ctx, case):
-    """-> (violations [(clause, expected, observed, features)], expected list, trace-or-None)"""
+    """-> (violations [(clause, expected, observed, features)], expected list)"""
     exp = expected_for(ctx, case)
     try:
         got = ids_of(ctx, observed_for(ctx, case))
     except Exception as ex:
         got = ["raised", type(ex).__name__]
-    if got == exp:
-        return [], exp
-    exp_defect = expected_for(ctx, case, defect=True)
-    return [(CLAUSE_Q, exp, got, defect_features(ctx, case, exp, exp_defect, got))], exp
+    out = []
+    if got != exp:
+        out.append((CLAUSE_Q, exp, got, features(ctx, case, exp, got)))
+    now = structure(ctx)
+    if now != ctx.snapshot:
+        # a query must not change the tree it ran on (names, attributes, child lists, parent links)
+        diff = [i - 1 for i, (x, y) in enumerate(zip(ctx.snapshot, now)) if x != y]
+        out.append((CLAUSE_T, "structure as built", {"changed_nodes": diff[:6]},
+                    {"entry_point": case["ep"], "caseless_predicate_on_nonstring": False,
+                     "deep_multilevel_match_path_order": False}))
+        ctx.snapshot = now
+    return out, exp
 
 
 def check_bool(b, v, impl=None):
@@ -716,11 +851,13 @@ def units(tier, seed):
     at = atoms(tier)
     s1, n0 = depth2_binary_rows(at)
     us.append({"u": "BOOL", "part": "small"})
+    us.append({"u": "BOOL", "part": "nary"})
+    us.append({"u": "BOOL", "part": "depth3"})
     rows = 6 if tier == "quick" else 16
     for lo in range(0, len(s1), rows):
         us.append({"u": "BOOL", "part": "rows", "lo": lo, "hi": min(len(s1), lo + rows)})
     # bulk tree universes
-    names = ["UA", "U1", "U2", "U3"] + (["UA3", "U2B"] if tier == "thorough" else [])
+    names = ["UA", "UF", "U1", "U2", "U3"] + (["UA3", "U2B"] if tier == "thorough" else [])
     for name in names:
         u = UNIVERSES[name]
         nq = len(universe_queries(name, tier))
@@ -745,10 +882,14 @@ def units(tier, seed):
     for build in ("entry", "multi", "nginx", "from_dict"):
         for i in range(n):
             us.append({"u": "UEP", "build": build, "fs": [i, n]})
+    for build in ("entry", "multi", "nginx"):
+        us.append({"u": "UD", "build": build})
     return us
 
 
 def unit_weight(u):
+    if u["u"] == "UD":
+        return 4
     if u["u"] == "UEP":
         return 3 if u["build"] == "nginx" else 2
     return {"BOOL": 2, "U2": 2, "U2B": 2}.get(u["u"], 1)
@@ -770,6 +911,10 @@ def run_bool_unit(unit, tier, res):
     s1, n0 = depth2_binary_rows(at)
     if unit["part"] == "small":
         preds = list(s1) + depth2_unary(at)
+    elif unit["part"] == "nary":
+        preds = nary(at)
+    elif unit["part"] == "depth3":
+        preds = depth3_spine(tier)
     else:
         preds = []
         for i in range(unit["lo"], unit["hi"]):
@@ -803,6 +948,8 @@ def run_bool_unit(unit, tier, res):
 
 OPTS = ((False, False), (False, True), (True, False), (True, True))
 DETAIL_FIRST = 60          # per unit: bad cases that always go through check_case (fresh build, fresh compile)
+DEEP_CHAIN = {"entry": 60, "multi": 60, "nginx": 40}     # depth of the deep-chain documents (UD); the nginx
+                                                          # grammar itself stops parsing at 50 nested blocks
 
 
 def run_bulk_unit(unit, tier, res):
@@ -833,7 +980,7 @@ def run_bulk_unit(unit, tier, res):
     fps = set()
     to_roots = M.to_roots
     detailed = 0
-    cheap = 0
+    rebuilt = {}
     for levels in queries:
         cq = Q.compile_queries(*[mk_lq(l) for l in levels])
         tts = []
@@ -859,16 +1006,17 @@ def run_bulk_unit(unit, tier, res):
                     k += 1
                     if deep is not last_deep:
                         # the un-rooted expectation is shared by the two `roots` values of one `deep`
-                        base, trace = levelwise(tree, ctx.start, sat, nl, deep, False, hc)
-                        if base != pathwise(tree, ctx.start, sat, nl, deep, False, hc):
+                        path, trace = levelwise(tree, ctx.start, sat, nl, deep)
+                        base, path2 = pathwise(tree, ctx.start, sat, nl, deep)
+                        if path != path2 or sorted(path) != base:
                             raise RuntimeError("reference formulations disagree on %s" % canon_json([f, levels, deep, build]))
                         last_deep = deep
                         matched = sum(t[1] for t in trace)
                         seen = sum(t[0] for t in trace)
                         nontriv = 0 < matched < seen
-                        if deep and nl > 1 and base != sorted(base):
+                        if path != base:
                             unordered += 1
-                    exp = to_roots(tree, base, hc) if roots else base
+                    exp = to_roots(tree, base, hc) if roots else base          # document order
                     try:
                         got = [idmap.get(id(o), "?") for o in select(cq, ctx.start_objs, deep=deep, roots=roots).children]
                     except Exception:
@@ -879,24 +1027,10 @@ def run_bulk_unit(unit, tier, res):
                     if bad or k % audit_every == 0:
                         case = {"kind": "select", "forest": f, "build": build, "ep": "compiled",
                                 "levels": levels, "deep": deep, "roots": roots}
-                        vio = None
-                        if bad and detailed >= DETAIL_FIRST and got is not None:
-                            # Cheap route for the bulk of an already seen family: same feature function, the
-                            # defect-mode expectation from truth tables. Anything not attributed to the known
-                            # defect, and the first DETAIL_FIRST bad cases of every unit, take the full route.
-                            dts = []
-                            for l in levels:
-                                key = canon_json(l) + "|defect"
-                                if key not in tt_cache:
-                                    tt_cache[key] = [M.level_match(l, lb[0], tuple(lb[1]), True) for lb in labs]
-                                dts.append(tt_cache[key])
-                            expd = levelwise(tree, ctx.start, lambda lv, n: dts[lv][lab[n]], nl, deep, roots, hc)[0]
-                            ft = defect_features(ctx, case, exp, expd, got)
-                            if ft["caseless_predicate_on_nonstring"]:
-                                vio = [(CLAUSE_Q, exp, got, ft)]
-                                cheap += 1
-                        if vio is None:
-                            vio = check_case(case)
+                        if bad and detailed >= DETAIL_FIRST:
+                            vio = eval_case(ctx, case)[0]            # same checker, on the objects already built
+                        else:
+                            vio = check_case(case)                   # fresh build, fresh compile
                             if bad:
                                 detailed += 1
                         if bad and not vio:
@@ -908,16 +1042,30 @@ def run_bulk_unit(unit, tier, res):
                         if not bad:
                             res.stat("fast_path_audited")
                     fps.add((nl, deep, roots, build, min(len(exp), 3), len(trace)))
+                # a query must leave the tree alone: the objects are reused by the following queries
+                if structure(ctx) != ctx.snapshot:
+                    case = {"kind": "select", "forest": f, "build": build, "ep": "compiled", "levels": levels,
+                            "deep": opts[-1][0], "roots": opts[-1][1],
+                            "before": [{"ep": "compiled", "levels": levels, "deep": d, "roots": r} for (d, r) in opts[:-1]]}
+                    vio = [v for v in check_case(case) if v[0] == CLAUSE_T]
+                    if not vio:
+                        raise RuntimeError("tree changed under the fast path but not in the checker on %s" % canon_json(case))
+                    for (cl, e, o, ft) in vio:
+                        res.violation(cl, case, e, o, ft)
+                    fresh = build_ctx(f, build)
+                    fresh.lab = ctx.lab
+                    rebuilt[(id(f), build)] = fresh
+        if rebuilt:
+            ctxs = [(f, rebuilt.pop((id(f), "entry"), c), rebuilt.pop((id(f), "multi"), m)) for (f, c, m) in ctxs]
+            rebuilt = {}
     res.evals += k
     res.nontrivial += nt
     if unordered:
-        res.stat("deep_multilevel_results_not_in_preorder", unordered)
+        res.stat("deep_multilevel_match_path_order_differs_from_document_order", unordered)
     for fp in fps:
         res.outcomes.add("%s:%d:%d%d:%s:%d:%d" % ((name,) + fp[:3] + (fp[3][0],) + fp[4:]))
     res.maxi("max_nodes_%s" % name, hi)
     res.stat("cases_%s" % name, k)
-    if cheap:
-        res.stat("violations_attributed_without_rebuild", cheap)
     if queries and ctxs:
         res.samples.append({"kind": "select", "forest": ctxs[len(ctxs) // 2][0], "build": "entry", "ep": "compiled",
                             "levels": queries[len(queries) // 2], "deep": True, "roots": False})
@@ -929,7 +1077,10 @@ def ep_levels(tier):
     one = [["name", nq_lit("a")], ["name", NONE], ["tuple", nq_lit("a"), ["lit", "x"]], ["tuple", NONE, ["lit", 1]],
            ["name", ["bool", ["not", P("eq", "a")]]], ["tuple", NONE, ["bool", ["not", P("ieq", "A")]]],
            ["tuple", nq_lit("b"), ["lit", "x"], ["bool", P("lt", 2)]], ["entry", ["all", ["lit", "x"]]],
-           ["name", ["fn", "raise"]]]
+           ["name", ["fn", "raise"]],
+           # predicates that raise on SOME attributes only: the verdict is per attribute, through every entry point
+           ["tuple", NONE, ["fn", "str_x"]], ["tuple", nq_lit("b"), ["fn", "lt2"], ["lit", "x"]],
+           ["entry", ["not", ["any", ["fn", "lt2"]]]], ["tuple", NONE, ["bool", ["not", P("startswith", "x")]]]]
     two = [["name", nq_lit("a")], ["name", NONE], ["tuple", NONE, ["lit", 1]], ["name", ["bool", ["not", P("eq", "a")]]]]
     if tier == "thorough":
         one += [["name", nq_lit("b")], ["name", nq_lit("A")], ["tuple", NONE, ["bool", P("istartswith", "X")]],
@@ -944,7 +1095,8 @@ def ep_wheres(tier):
     objs = [["q", ["name", nq_lit("a")]], ["not", ["q", ["name", nq_lit("a")]]],
             ["or", ["q", ["tuple", nq_lit("a"), ["lit", "x"]]], ["q", ["name", nq_lit("b")]]],
             ["and", ["q", ["name", nq_lit("a")]], ["not", ["q", ["tuple", NONE, ["lit", 1]]]]],
-            ["fn", "raise"], ["fn", "has_kids"]]
+            ["fn", "raise"], ["fn", "has_kids"],
+            ["q", ["tuple", NONE, ["fn", "str_x"]]], ["not", ["q", ["tuple", NONE, ["fn", "lt2"]]]]]
     return args, objs
 
 
@@ -976,6 +1128,42 @@ def ep_cases(tier, build):
                 out.append({"ep": "where", "pre": pre, "wq": wq, "where_style": "args"})
             for wq in objs:
                 out.append({"ep": "where", "pre": pre, "wq": wq, "where_style": "object"})
+    if build == "nginx":
+        for l in one:
+            for roots in (False, True):
+                out.append({"ep": "find_all", "levels": [l], "deep": True, "roots": roots})
+    out += ep_histories(tier, build)
+    return out
+
+
+HIST = [["name", nq_lit("a")], ["name", NONE], ["tuple", nq_lit("a"), ["lit", "x"]], ["tuple", NONE, ["lit", 1]],
+        ["name", ["bool", ["not", P("eq", "a")]]]]
+
+
+def ep_histories(tier, build):
+    """Two-step histories on ONE set of objects: a first query (deep and roots on, the options that touch the most)
+    and then the judged query; the chained variants run both steps on the same Result object; `share` reuses the
+    identical python query objects in both steps.  The expectation of the judged step does not depend on the first."""
+    out = []
+    if build == "from_dict":
+        return out
+    judged = ((False, False), (True, True))
+    hs = HIST if build != "nginx" else HIST[:3]
+    for a in hs:
+        for b in hs:
+            for deep, roots in judged:
+                out.append({"ep": "select", "levels": [b], "deep": deep, "roots": roots, "share": a == b,
+                            "before": [{"ep": "select", "levels": [a], "deep": True, "roots": True}]})
+    two = HIST[:2] + HIST[3:]
+    for pre in ([["name", NONE]], [["name", nq_lit("a")]]):
+        for a in two:
+            for b in two:
+                for deep, roots in judged:
+                    out.append({"ep": "chain", "pre": pre, "levels": [b], "deep": deep, "roots": roots, "share": a == b,
+                                "before": [{"ep": "chain", "pre": pre, "levels": [a], "deep": True, "roots": True},
+                                           {"ep": "where", "pre": pre, "wq": ["q", ["name", NONE]], "where_style": "args"}]})
+        if build == "nginx":
+            break
     return out
 
 
@@ -1008,13 +1196,55 @@ def run_ep_unit(unit, tier, res):
             res.evals += 1
             if exp and len(exp) < ctx.tree.n:
                 res.nontrivial += 1
-            res.outcomes.add("UEP:%s:%s:%d%d:%d" % (build[0], case["ep"], bool(case.get("deep")), bool(case.get("roots")), min(len(exp), 3)))
+            res.outcomes.add("UEP:%s:%s%s:%d%d:%d" % (build[0], case["ep"], "+h" if case.get("before") else "",
+                                                      bool(case.get("deep")), bool(case.get("roots")), min(len(exp), 3)))
             for (cl, e, o, ft) in vio:
                 res.violation(cl, case, e, o, ft)
+                if cl == CLAUSE_T:
+                    ctx = build_ctx(f, build)            # continue on intact objects
             if n == 7:
                 res.samples.append(case)
     res.stat("cases_UEP_%s" % build, n)
     res.stat("forests_built_%s" % build, built)
+
+
+def deep_forests(depth):
+    """Documents far deeper than the bulk bound: a chain of `depth` nested nodes whose names repeat a pattern
+    of period 3 over {a, b}, and the same chain with an extra leaf `b 1` in front of every nested node."""
+    out = []
+    for pat in itertools.product("ab", repeat=3):
+        for comb in (False, True):
+            node = [pat[(depth - 1) % 3], [1], []]
+            for d in range(depth - 2, -1, -1):
+                kids = ([["b", [1], []]] if comb else []) + [node]
+                node = [pat[d % 3], [], kids]
+            out.append([node])
+    return out
+
+
+def run_deep_unit(unit, tier, res):
+    build = unit["build"]
+    lqs = lq_names("quick")
+    queries = [list(t) for n in (1, 2, 3) for t in itertools.product(lqs, repeat=n)]
+    n = 0
+    for f in deep_forests(DEEP_CHAIN[build]):
+        ctx = build_ctx(f, build)
+        for levels in queries:
+            for deep, roots in OPTS:
+                case = {"kind": "select", "forest": f, "build": build, "ep": "select", "levels": levels,
+                        "deep": deep, "roots": roots}
+                vio, exp = eval_case(ctx, case)
+                n += 1
+                if exp and len(exp) < ctx.tree.n:
+                    res.nontrivial += 1
+                res.outcomes.add("UD:%s:%d:%d%d:%d" % (build[0], len(levels), deep, roots, min(len(exp), 3)))
+                for (cl, e, o, ft) in vio:
+                    res.violation(cl, case, e, o, ft)
+                    if cl == CLAUSE_T:
+                        ctx = build_ctx(f, build)
+    res.evals += n
+    res.stat("cases_UD_%s" % build, n)
+    res.maxi("max_depth_UD_%s" % build, DEEP_CHAIN[build])
 
 
 def _strip(tree):
@@ -1031,6 +1261,8 @@ def run_unit(unit, tier):
         run_bool_unit(unit, tier, res)
     elif unit["u"] == "UEP":
         run_ep_unit(unit, tier, res)
+    elif unit["u"] == "UD":
+        run_deep_unit(unit, tier, res)
     else:
         run_bulk_unit(unit, tier, res)
     return res
